@@ -3,12 +3,9 @@
 use vstd::prelude::*;
 use vstd::slice::SliceIndexSpec;
 use vstd::std_specs::iter::IteratorSpec;
-use std::collections::BTreeSet;
-use std::collections::btree_set;
 verus! {
 global size_of usize == 8;
 //@include prelude/std_contracts.rs
-//@include prelude/list_core_std.rs
 //@include prelude/conversions_std.rs
 //@include prelude/random_more_std.rs
 
